@@ -21,6 +21,7 @@
 
 from __future__ import annotations
 
+from contextlib import suppress
 from dataclasses import dataclass
 from sys import maxsize
 from typing import TYPE_CHECKING
@@ -188,6 +189,16 @@ class ScipyGlobalOpt(BaseOptimizationLibrary):
         )
 
         return opt_result.message, opt_result.success
+
+    def _clear_listeners(self, problem: OptimizationProblem) -> None:
+        super()._clear_listeners(problem)
+        # Remove the listener added by _run for the constrained problems,
+        # otherwise the next driver executed on this problem would call it
+        # while this library is no longer attached to a problem.
+        with suppress(ValueError):
+            problem.database.clear_listeners(
+                new_iter_listeners=[self._iter_callback], store_listeners=None
+            )
 
     @staticmethod
     def __get_non_linear_constraints(
